@@ -109,6 +109,12 @@ def proj_mol(arr):
 NO_MOL = {"ok": False, "atoms": [], "bonds": []}
 
 
+# live-object histories (as for PDBFile in C07): every second call in a pool item hands its molecule to
+# the MOLFile object of the previous call, and the object that was written is read next to the re-parsed
+# text: the content of a MOLFile is a function of the last structure set
+_LIVE_MOL = {"f": None, "n": 0}
+
+
 def run_ctab(m, version, dflt):
     from biotite.structure import BondType
     from biotite.structure.io.mol import MOLFile
@@ -117,10 +123,14 @@ def run_ctab(m, version, dflt):
           "err": ""}
     try:
         arr = build_mol(m)
-        f = MOLFile()
+        _LIVE_MOL["n"] += 1
+        reuse = _LIVE_MOL["n"] % 2 == 0 and _LIVE_MOL["f"] is not None
+        f = _LIVE_MOL["f"] if reuse else MOLFile()
+        _LIVE_MOL["f"] = None
         with warnings.catch_warnings():
             warnings.simplefilter("ignore")
             f.set_structure(arr, default_bond_type=BondType(dflt), version=None if version == "None" else version)
+        _LIVE_MOL["f"] = f
     except AssertionError:
         raise
     except Exception as e:
@@ -135,6 +145,10 @@ def run_ctab(m, version, dflt):
             warnings.simplefilter("ignore")
             g = MOLFile.read(io.StringIO(out.getvalue()))
             ev["back"] = proj_mol(g.get_structure())
+            live = proj_mol(f.get_structure())
+            if live != ev["back"]:
+                ev["back"] = live
+                ev["err"] = "the written object reads differently from its re-parsed text"
     except Exception as e:
         ev["back"] = dict(NO_MOL)
         ev["err"] = f"read: {type(e).__name__}: {e}"[:200]
